@@ -4,6 +4,8 @@
 (* (round(2^20 log2 x)) for SD, ND, k_1, TN, TS; Nan = 1999999999 for a value *)
 (* that is not a finite positive number.  tau is the tolerance of the         *)
 (* analyzer that produced the trace (closed-form estimators: 2 units =        *)
+(* [tauND: the knee cycle number of the Nelder-Mead based estimators follows  *)
+(*  SD with the power k_1, so its tolerance is tau times the slope]            *)
 (* 1.3e-6; Nelder-Mead based ones: 160 units = 1e-4).                         *)
 (***************************************************************************)
 EXTENDS Integers, Sequences, TLC, Json, IOUtils, TLCExt
@@ -13,12 +15,12 @@ Unit == 1048576            \* 2^20: one factor of two
 VARIABLES tid, l, verdict
 vars == <<tid, l, verdict>>
 Near(x, y, tau) == IF x = Nan \/ y = Nan THEN x = y ELSE (x - y <= tau /\ y - x <= tau)
-Clause(e, o, n, tau) ==
+Clause(e, o, n, tau, tauND) ==
   LET dSD == IF e.action = "ScaleLoads" THEN e.arg * Unit ELSE IF e.action = "ChangeUnit" THEN e.dmicro ELSE 0        \* ChangeUnit logs the micro-log of (new factor / old factor)
       dND == IF e.action = "ScaleCycles" THEN e.arg * Unit ELSE 0
   IN IF ~Near(n.SD, IF o.SD = Nan THEN Nan ELSE o.SD + dSD, tau) THEN "SD"
      \* without run-outs SD = 0 and ND is evaluated at the artificial load 0.1: its behaviour under load scaling is not claimed
-     ELSE IF ~(e.action \in {"ScaleLoads", "ChangeUnit"} /\ o.SD = Nan) /\ ~Near(n.ND, IF o.ND = Nan THEN Nan ELSE o.ND + dND, tau) THEN "ND"
+     ELSE IF ~(e.action \in {"ScaleLoads", "ChangeUnit"} /\ o.SD = Nan) /\ ~Near(n.ND, IF o.ND = Nan THEN Nan ELSE o.ND + dND, tauND) THEN "ND"
      ELSE IF ~Near(n.k_1, o.k_1, tau) THEN "k_1"
      ELSE IF ~Near(n.TN, o.TN, tau) THEN "TN"
      ELSE IF ~Near(n.TS, o.TS, tau) THEN "TS"
@@ -33,7 +35,7 @@ Init == tid \in 1..Len(Traces) /\ l = 0 /\ verdict = StartClause(Traces[tid])
 Step == /\ verdict = "ok" /\ l < Len(Traces[tid].events)
         /\ LET e == Traces[tid].events[l + 1]
                o == IF l = 0 THEN Traces[tid].start ELSE Traces[tid].events[l].obs
-           IN verdict' = (IF e.lnL_gain_micro < -1 THEN "likelihood_below_start" ELSE Clause(e, o, e.obs, Traces[tid].tau))
+           IN verdict' = (IF e.lnL_gain_micro < -1 THEN "likelihood_below_start" ELSE Clause(e, o, e.obs, Traces[tid].tau, Traces[tid].tauND))
         /\ l' = l + 1 /\ UNCHANGED tid
 Spec == Init /\ [][Step]_vars
 Done == verdict # "ok" \/ l = Len(Traces[tid].events)
